@@ -48,7 +48,11 @@ Definition fragment_end_ok (q : st) : bool :=
      so that a quote in the following text is caught;
    - a rendered fragment likewise (it may begin and end with a literal);
    - identifiers, dates, hex, numbers are harmless bytes wherever they stand (inside quotes they keep the
-     machine inside the literal: SqlSitesProofs.plain_in_literal);
+     machine inside the literal: SqlSitesProofs.plain_in_literal); numbers (%d, %f, strconv.Itoa/FormatInt/
+     FormatUint/FormatFloat) are texts over numeric_alphabet below: no quote, backslash, slash, star, hash or
+     white space, so they can neither open nor close a literal or a comment; the only marker they could help to
+     form is "--" through a leading minus sign, excluded by requiring that the site's text before them does not
+     end in a pending "-";
    - constants, aliases and configuration are trusted text;
    - an unclassified argument fails the site. *)
 Definition step_piece (acc : option st) (p : piece) : option st :=
@@ -61,7 +65,9 @@ Definition step_piece (acc : option st) (p : piece) : option st :=
       | PArg KQuoted _ | PArg KRendered _ | PArg KBuilt _ =>
           if opens_literal q then Some (QStrQ EmptyString) else None
       | PArg KEscBody _ => match q with QStr _ => Some q | _ => None end
-      | PArg KInt _ | PArg KFloat _ => Some (after q "1")
+      | PArg KInt _ | PArg KFloat _ =>
+          (* numeric text may begin with a sign: it must not complete a comment marker begun by the site's text *)
+          match q with QP c => if Ascii.eqb c "-" then None else Some (after q "1") | _ => Some (after q "1") end
       | PArg KDate _ => Some (after q "2000-01-01")
       | PArg KDbHex _ => Some (after q "a1")
       | PArg _ _ => Some (after q "x")
@@ -94,6 +100,16 @@ Fixpoint all_chars (p : ascii -> bool) (s : string) : bool :=
 
 Fixpoint mem_char (c : ascii) (s : string) : bool :=
   match s with EmptyString => false | String d r => Ascii.eqb c d || mem_char c r end.
+
+(* every byte Go can print for an integer or a float64 in any strconv/fmt numeric format: digits, sign, point,
+   exponent and hex-float letters, and the letters of NaN, +Inf, -Inf *)
+Definition numeric_alphabet : string := "0123456789+-.eEpPxXabcdefABCDEFNIn".
+(* bytes that could open or close a literal, quoted identifier or comment, or separate tokens *)
+Definition structural_bytes : string :=
+  String "'" (String "\" (String """" (String "`" (String "/" (String "*" (String "#" (String " "
+  (String "009" (String "010" (String "011" (String "012" (String "013" EmptyString)))))))))))).
+Definition numeric_alphabet_harmless : bool :=
+  all_chars plain_char numeric_alphabet && all_chars (fun c => negb (mem_char c numeric_alphabet)) structural_bytes.
 
 (* s consists of bytes of the alphabet *)
 Definition over (alpha s : string) : bool := all_chars (fun c => mem_char c alpha) s.
